@@ -36,17 +36,20 @@ Lemma read_name_ok (n : note) img (A1 NP Rest : list Z) off :
 Proof.
   unfold name_bytes. intros Hname Hnp Hi Ho. unfold read_name, read_cur. destruct (n_name n) as [s|].
   - apply andb_prop in Hname. destruct Hname as [Hnn _].
-    unfold cstring_encode in *. rewrite zlen_app in *. change (zlen [0]) with 1 in *.
-    pose proof (zlen_nonneg s) as H0.
-    destruct (Z.eqb_spec (zlen s + 1) 0); [lia|].
+    set (X := n_nextra n) in *.
+    pose proof (zlen_nonneg s) as H0. pose proof (zlen_nonneg X) as H1.
+    assert (Hz : zlen (cstring_encode s ++ X) = zlen s + 1 + zlen X).
+    { unfold cstring_encode. rewrite !zlen_app. change (zlen [0]) with 1. lia. }
+    rewrite Hz in *.
+    destruct (Z.eqb_spec (zlen s + 1 + zlen X) 0); [lia|].
     rewrite roundup_2.
-    rewrite (read_at_at img A1 ((s ++ [0]) ++ NP) Rest off _).
-    + change ((s ++ [0]) ++ NP) with (cstring_encode s ++ NP).
-      rewrite cstring_decode_valid by exact Hnn.
-      unfold cstring_encode. rewrite !zlen_app. change (zlen [0]) with 1. rewrite Hnp. reflexivity.
+    rewrite (read_at_at img A1 ((cstring_encode s ++ X) ++ NP) Rest off _).
+    + rewrite <- app_assoc. rewrite cstring_decode_valid by exact Hnn.
+      unfold cstring_encode. rewrite !zlen_app. change (zlen [0]) with 1. rewrite Hnp.
+      repeat (f_equal; try lia).
     + rewrite Hi. rewrite <- !app_assoc. reflexivity.
     + exact Ho.
-    + rewrite !zlen_app. change (zlen [0]) with 1. lia.
+    + rewrite zlen_app, Hz. lia.
   - change (zlen (@nil Z)) with 0. cbn [Z.eqb]. rewrite pad4_0.
     f_equal. f_equal; [f_equal|]; lia.
 Qed.
@@ -61,7 +64,7 @@ Lemma zlen_encode_note c n : wf_note (scfg_of c) n = true ->
   zlen (encode_note (scfg_of c) n) = note_size (scfg_of c) n.
 Proof.
   intros Hwf. unfold wf_note in Hwf. rewrite !andb_true_iff in Hwf.
-  destruct Hwf as [[[[[[[[[Hname Hnpb] Hnpl] Hdpb] Hdpl] Hnsz] Hdsz] Hty] Hwd] Hk].
+  destruct Hwf as [[[[[[[[[[Hname Hxb] Hnpb] Hnpl] Hdpb] Hdpl] Hnsz] Hdsz] Hty] Hwd] Hk].
   apply Z.eqb_eq in Hnpl. apply Z.eqb_eq in Hdpl.
   unfold encode_note, note_size. rewrite !zlen_app, zlen_nhdr.
   unfold namesz, descsz in *. lia.
@@ -83,7 +86,7 @@ Theorem one_note_ok c n img cur (A R : list Z) :
 Proof.
   intros Hc Hwf Hi.
   unfold wf_note in Hwf. rewrite !andb_true_iff in Hwf.
-  destruct Hwf as [[[[[[[[[Hname Hnpb] Hnpl] Hdpb] Hdpl] Hnsz] Hdsz] Hty] Hwd] Hk].
+  destruct Hwf as [[[[[[[[[[Hname Hxb] Hnpb] Hnpl] Hdpb] Hdpl] Hnsz] Hdsz] Hty] Hwd] Hk].
   apply Z.eqb_eq in Hnpl. apply Z.eqb_eq in Hdpl. apply kind_eqb_eq in Hk.
   set (sc := scfg_of c) in *.
   set (H := encode_layout (spec_Elf_Nhdr (c_le c)) [VZ (namesz n); VZ (descsz sc n); VZ (n_type n)]).
